@@ -667,6 +667,18 @@ def _itemsize_region(line):
 REGIONS = {"native_at_prefix_platform_sizes": _at_region, "array_typecode_platform_itemsize": _itemsize_region}
 
 
+def compare(out, model_out, line):
+    """IMPL = MODEL, except inside a known-deviation region: there the model transcribes the deviant behaviour of the
+    pinned tree and is *not* the specification, so an implementation that satisfies the property itself (oracle
+    silent, e.g. after the proposed fix) is not a disagreement."""
+    if out == model_out:
+        return True
+    if any(pred(line) for pred in REGIONS.values()):
+        o, e = execute(line)
+        return o == out and oracle(line, o, e) is None
+    return False
+
+
 def model_line(line):
     f = line.split(SEP)
     if f[1] == "bswap":
